@@ -191,11 +191,11 @@ theorem props_kw_valid (shape : Shape) (c : Ctx) (fs : JsonFields) :
     subst this; simp [Shape.keys, propsJS, propsValid]
   · simp [hk, kwValid]
 
-theorem req_kw_valid (shape : Shape) (c : Ctx) (fs : JsonFields) :
-    (if (requiredKeys shape).isEmpty then [] else [Kw.required (requiredKeys shape)]).all (fun k => kwValid k c (.obj fs))
-      = (requiredKeys shape).all (fun k => fs.hasKey k) := by
-  by_cases hk : (requiredKeys shape).isEmpty = true
-  · have : requiredKeys shape = [] := by simpa using hk
+theorem req_kw_valid (req : List Str) (c : Ctx) (fs : JsonFields) :
+    (if req.isEmpty then [] else [Kw.required req]).all (fun k => kwValid k c (.obj fs))
+      = req.all (fun k => fs.hasKey k) := by
+  by_cases hk : req.isEmpty = true
+  · have : req = [] := by simpa using hk
     simp [this]
   · simp [hk, kwValid]
 
@@ -221,10 +221,10 @@ theorem propsKws_propKeys (b : SzBag) (pre : List Kw) (hp : ∀ k ∈ pre, ∀ p
 
 theorem lenBag_nil : lengthKws (lenBag []) = [] := by simp [lenBag, lengthKws, optKw]
 
-theorem obj_propKeys (shape : Shape) (j : JS) (tail : List Kw)
+theorem obj_propKeys (shape : Shape) (req : List Str) (j : JS) (tail : List Kw)
     (ht : ∀ k ∈ tail, ∀ ps, k ≠ Kw.properties ps) :
     (KwList.ofList ([Kw.type .object] ++ (if shape.keys.isEmpty then [] else [Kw.properties (propsJS shape)])
-        ++ (if (requiredKeys shape).isEmpty then [] else [Kw.required (requiredKeys shape)])
+        ++ (if req.isEmpty then [] else [Kw.required req])
         ++ [Kw.additionalProperties j] ++ tail)).propKeys = shape.keys := by
   by_cases hk : shape.keys.isEmpty = true
   · have hk' : shape.keys = [] := by simpa using hk
@@ -312,12 +312,11 @@ theorem eqv : (s : S) → (top o n : Bool) → (x : Json) → reprP top s = true
     · simp [jsValid_node, kwValid, anyValid, ih, nullJS_valid, Bool.or_comm]
   | .obj mode ca part cks shape, top, o, n, x, h, hx => by
     simp only [reprP, Bool.and_eq_true, Bool.not_eq_true'] at h
-    obtain ⟨⟨⟨⟨⟨hm, hp⟩, hsc⟩, hsz⟩, hca⟩, hsh⟩ := h
-    subst hp
+    obtain ⟨⟨⟨⟨hm, hsc⟩, hsz⟩, hca⟩, hsh⟩ := h
     cases x with
     | obj fs =>
       have hfs : instFieldsOK fs = true := by simpa [instOK] using hx
-      have hshape := eqvShape shape hsh fs hfs
+      have hshape := eqvShape part shape hsh fs hfs
       have hadd : ∀ keys : List Str, fs.all (fun k v => keys.contains k || jsValid (caJS ca mode.isLoose) v)
           = (match mode with
               | .strict => fs.all (fun k _ => keys.contains k)
@@ -339,7 +338,7 @@ theorem eqv : (s : S) → (top o n : Bool) → (x : Json) → reprP top s = true
             simp only [caJS, catchAccepts]
             exact all_congr_fields _ _ (fun k v _ hv => by
               rw [eqv c false false false v (by simpa [reprCa] using hca) hv]) fs hfs
-      have hk := obj_propKeys shape (caJS ca mode.isLoose) (propsKws (szBag cks)) (propsKws_noprops _)
+      have hk := obj_propKeys shape (reqKeysP part shape) (caJS ca mode.isLoose) (propsKws (szBag cks)) (propsKws_noprops _)
       simp only [toJS, jsValid_node]
       rw [hk]
       simp only [List.all_append, List.all_cons, List.all_nil, Bool.and_true, kwValid, typeOk, Bool.true_and,
@@ -498,22 +497,34 @@ theorem eqvCount : (ms : SList) → reprMembers ms = true → (x : Json) → ins
     simp only [reprMembers, Bool.and_eq_true] at h
     simp [listJS, countValid, countAccepts, eqv s false false false x h.1.2 hx, eqvCount ss h.2 x hx]
 
-theorem eqvShape : (shape : Shape) → reprShape shape = true → (fs : JsonFields) → instFieldsOK fs = true →
-    (propsValid (propsJS shape) fs && (requiredKeys shape).all (fun k => fs.hasKey k)) = shapeAccepts false shape fs
-  | .nil, _, _, _ => by simp [propsJS, propsValid, requiredKeys, shapeAccepts]
-  | .cons k s rest, h, fs, hfs => by
+theorem eqvShape : (part : Bool) → (shape : Shape) → reprShape shape = true → (fs : JsonFields) → instFieldsOK fs = true →
+    (propsValid (propsJS shape) fs && (reqKeysP part shape).all (fun k => fs.hasKey k)) = shapeAccepts part shape fs
+  | part, .nil, _, _, _ => by cases part <;> simp [propsJS, propsValid, requiredKeys, shapeAccepts]
+  | part, .cons k s rest, h, fs, hfs => by
     simp only [reprShape, Bool.and_eq_true] at h
-    have ih := eqvShape rest h.2 fs hfs
-    simp only [propsJS, propsValid, requiredKeys, shapeAccepts, Bool.false_or]
-    rw [← ih]
-    cases hf : fs.find k with
-    | none =>
-      cases ho : s.isOpt <;> simp [hf, ho, JsonFields.hasKey]
-    | some v =>
-      have hv := find_instOK k v fs hfs hf
-      have he := eqv s false false false v h.1 hv
-      cases ho : s.isOpt <;> simp [hf, ho, he, JsonFields.hasKey] <;>
-        cases accepts s v <;> cases propsValid (propsJS rest) fs <;> simp
+    have ih := eqvShape part rest h.2 fs hfs
+    cases part with
+    | false =>
+      simp only [reqKeysP_false] at ih
+      simp only [propsJS, propsValid, requiredKeys, shapeAccepts, Bool.false_or, reqKeysP_false]
+      rw [← ih]
+      cases hf : fs.find k with
+      | none =>
+        cases ho : s.isOpt <;> simp [hf, ho, JsonFields.hasKey]
+      | some v =>
+        have hv := find_instOK k v fs hfs hf
+        have he := eqv s false false false v h.1 hv
+        cases ho : s.isOpt <;> simp [hf, ho, he, JsonFields.hasKey] <;>
+          cases accepts s v <;> cases propsValid (propsJS rest) fs <;> simp
+    | true =>
+      simp only [reqKeysP_true, List.all_nil, Bool.and_true] at ih
+      simp only [propsJS, propsValid, shapeAccepts, Bool.true_or, reqKeysP_true, List.all_nil, Bool.and_true]
+      rw [← ih]
+      cases hf : fs.find k with
+      | none => simp
+      | some v =>
+        have hv := find_instOK k v fs hfs hf
+        simp [eqv s false false false v h.1 hv]
 end
 
 /-! ### value preservation: on `reprP` schemas Parse returns its input -/
@@ -697,43 +708,43 @@ theorem shapeAccepts_filter (part : Bool) (p : Str → Bool) (fs : JsonFields) :
     simp [shapeAccepts, find_filter p k hk fs, ih]
 
 /-- the document of a strip-mode object on an object instance. -/
-theorem strip_doc (ca : SOpt) (cks : List SzCk) (shape : Shape) (top o n : Bool) (fs : JsonFields)
+theorem strip_doc (part : Bool) (ca : SOpt) (cks : List SzCk) (shape : Shape) (top o n : Bool) (fs : JsonFields)
     (hsz : szSimple cks = true) (hca : reprCa ca = true) (hsh : reprShape shape = true)
     (hfs : instFieldsOK fs = true) :
-    jsValid (toJS top o n (.obj .strip ca false cks shape)) (.obj fs)
-      = (shapeAccepts false shape fs
+    jsValid (toJS top o n (.obj .strip ca part cks shape)) (.obj fs)
+      = (shapeAccepts part shape fs
          && fs.all (fun k v => shape.keys.contains k || jsValid (caJS ca false) v)
          && szOk cks fs.size) := by
-  have hk := obj_propKeys shape (caJS ca Mode.strip.isLoose) (propsKws (szBag cks)) (propsKws_noprops _)
+  have hk := obj_propKeys shape (reqKeysP part shape) (caJS ca Mode.strip.isLoose) (propsKws (szBag cks)) (propsKws_noprops _)
   simp only [toJS, jsValid_node]
   rw [hk]
   simp only [List.all_append, List.all_cons, List.all_nil, Bool.and_true, kwValid, typeOk, Bool.true_and,
     propsKws_valid cks _ fs hsz, props_kw_valid, req_kw_valid, Mode.isLoose]
-  rw [← eqvShape shape hsh fs hfs]
+  rw [← eqvShape part shape hsh fs hfs]
 
-theorem sound_strip (ca : SOpt) (cks : List SzCk) (shape : Shape) (top o n : Bool) (x : Json)
+theorem sound_strip (part : Bool) (ca : SOpt) (cks : List SzCk) (shape : Shape) (top o n : Bool) (x : Json)
     (hsz : szSimple cks = true) (hca : reprCa ca = true) (hsh : reprShape shape = true)
-    (hx : instOK x = true) (ha : accepts (.obj .strip ca false cks shape) x = true) :
-    jsValid (toJS top o n (.obj .strip ca false cks shape)) (out (.obj .strip ca false cks shape) x) = true := by
+    (hx : instOK x = true) (ha : accepts (.obj .strip ca part cks shape) x = true) :
+    jsValid (toJS top o n (.obj .strip ca part cks shape)) (out (.obj .strip ca part cks shape) x) = true := by
   cases x <;> simp [accepts] at ha
   rename_i fs
   have hfs : instFieldsOK fs = true := by simpa [instOK] using hx
   simp only [out]
-  rw [strip_doc ca cks shape top o n _ hsz hca hsh (filter_instOK _ fs hfs)]
-  rw [shapeAccepts_filter false _ fs shape (by intro k hk; simpa using hk)]
+  rw [strip_doc part ca cks shape top o n _ hsz hca hsh (filter_instOK _ fs hfs)]
+  rw [shapeAccepts_filter part _ fs shape (by intro k hk; simpa using hk)]
   rw [filter_all _ _ (by intro k v hk; simp only [Bool.or_eq_true]; exact Or.inl hk) fs]
   simp [ha.1]
   simpa using ha.2
 
-theorem complete_strip (ca : SOpt) (cks : List SzCk) (shape : Shape) (top o n : Bool) (x : Json)
+theorem complete_strip (part : Bool) (ca : SOpt) (cks : List SzCk) (shape : Shape) (top o n : Bool) (x : Json)
     (hsz : szSimple cks = true) (hcs : (!ca.isSome || cks.isEmpty) = true)
     (hca : reprCa ca = true) (hsh : reprShape shape = true)
-    (hx : instOK x = true) (hv : jsValid (toJS top o n (.obj .strip ca false cks shape)) x = true) :
-    accepts (.obj .strip ca false cks shape) x = true := by
+    (hx : instOK x = true) (hv : jsValid (toJS top o n (.obj .strip ca part cks shape)) x = true) :
+    accepts (.obj .strip ca part cks shape) x = true := by
   cases x with
   | obj fs =>
     have hfs : instFieldsOK fs = true := by simpa [instOK] using hx
-    rw [strip_doc ca cks shape top o n fs hsz hca hsh hfs] at hv
+    rw [strip_doc part ca cks shape top o n fs hsz hca hsh hfs] at hv
     simp only [Bool.and_eq_true] at hv
     simp only [accepts, Bool.and_eq_true, hv.1.1, true_and, Bool.and_true]
     cases ca with
@@ -773,9 +784,8 @@ theorem c07_sound (s : S) (x r : Json) (h : reprTop true s = true) (hx : instOK 
     unfold reprTop at h
     split at h
     · simp only [Bool.and_eq_true, Bool.not_eq_true'] at h
-      obtain ⟨⟨⟨⟨hp, hsz⟩, _⟩, hca⟩, hsh⟩ := h
-      subst hp
-      exact sound_strip _ _ _ true false false x hsz hca hsh hx ha
+      obtain ⟨⟨⟨hsz, _⟩, hca⟩, hsh⟩ := h
+      exact sound_strip _ _ _ _ true false false x hsz hca hsh hx ha
     · rw [pres _ true x h ha, toDoc, eqv _ true false false x h hx, ha]
   · simp at hp
 
@@ -786,9 +796,8 @@ theorem c07_complete (s : S) (x : Json) (h : reprTop true s = true) (hx : instOK
     unfold reprTop at h
     split at h
     · simp only [Bool.and_eq_true, Bool.not_eq_true'] at h
-      obtain ⟨⟨⟨⟨hp, hsz⟩, hcs⟩, hca⟩, hsh⟩ := h
-      subst hp
-      exact complete_strip _ _ _ true false false x hsz hcs hca hsh hx hv
+      obtain ⟨⟨⟨hsz, hcs⟩, hca⟩, hsh⟩ := h
+      exact complete_strip _ _ _ _ true false false x hsz hcs hca hsh hx hv
     · rw [← eqv _ true false false x h hx]; exact hv
   simp [parse, ha]
 
@@ -1035,8 +1044,7 @@ def o1 (k : Str) (v : Json) : Json := .obj (.cons k v .nil)
 theorem witness_bytes_vs_codepoints : Incomplete (.str [.len 1]) (.str [233]) ∧ Unsound (.str [.min 3]) (.str [233, 233]) := by decide
 theorem witness_trim_before_min : Incomplete (.str [.trim, .min 2]) (.str [32, 32]) := by decide
 theorem witness_optional_null : Unsound (.opt (.str [])) .null := by decide
-theorem witness_partial_required :
-    Unsound (.obj .strip .none true [] (.cons [97] (.str []) .nil)) (.obj .nil) := by decide
+-- `witness_partial_required` (the converter before the fix C07-object-optionality) is in Proofs/C07Lazy.lean
 theorem witness_array_single_item : Incomplete (.arr .none [] (.cons (.str []) .nil)) (.arr .nil) := by decide
 theorem witness_rest_without_min_items :
     Incomplete (.arr (.some .bool) [] (.cons (.str []) .nil)) (.arr .nil) := by decide
